@@ -31,7 +31,8 @@ META = {
         " Round 7: the match the engine reports stops in front of '.', ';', ','; every spelling the direction / quarter sub-patterns accept is accepted by the look-ahead as the start of the next aliquot."
         " Round 8: scoped inline flags are modelled; the look-ahead is checked in both cases; the base scrubbers stop in front of '.', ';', ',' for every spelling alike."
         ' Round 9: scrub_aliquots returns only after half_plus_q and the intervener remover ran.'
-        ' Round 10: the look-ahead that ends every aliquot scrubber accepts each element separator (comma, semicolon, line break, blank) and the end of text.'),
+        ' Round 10: the look-ahead that ends every aliquot scrubber accepts each element separator (comma, semicolon, line break, blank) and the end of text.'
+        ' Round 11: the half-plus-quarter callback is re-located by role after a rename / split.'),
     'families': ['RX-LANG', 'TBL', 'FIXPOINT', 'ORDER', 'STRIPSET'],
 }
 
